@@ -438,6 +438,12 @@ func (p *partition) Subscribe(ctx context.Context, req *client.SubscribeRequest)
 				stopOffset, startOffset))
 	}
 
+	// A reverse subscription reads committed messages only. If there are none,
+	// it is already at the beginning of the partition.
+	if req.Reverse && p.log.HighWatermark() == -1 {
+		return nil, status.New(codes.ResourceExhausted, "Beginning of partition reached")
+	}
+
 	// Cancel previous group subscriber if there was one.
 	if previousSubscriber != nil {
 		p.srv.logger.Debugf("Replacing group %s consumer %s with consumer %s for partition %s",
